@@ -20,6 +20,12 @@ package hpack
 //                    padded small indices, indices up to 2^63+126, the overflow cut-off), in all four index-bearing
 //                    forms: every index outside the tables is an error, never a panic or a fabricated field.
 //
+//   VerifC02_longupdate (shape B) same oracle on blocks that open with a dynamic table size update whose size is a
+//                    multi-byte integer of every length readVarInt accepts (0..10 continuation bytes, any content:
+//                    sizes up to 2^63+30, i.e. far beyond uint32), optionally followed by a second short update and by
+//                    one indexed field: every size above the allowed maximum (a full-width comparison, not one
+//                    modulo 2^32) is an error and leaves the table untouched; accepted sizes evict exactly as §4.3.
+//
 // Sensitivity (mut.sh, quick tier), all caught:
 //   hpack.go readString `strLen > uint64(d.maxStrLen)` -> `>=`            VerifC02_strings (error iff reference rejects)
 //   hpack.go readVarInt `if m >= 63` -> `m >= 70`                         VerifC02_varint (consumes 1..10 bytes)
@@ -35,6 +41,7 @@ func init() {
 	vfRegister("VerifC02_decode", VerifC02_decode)
 	vfRegister("VerifC02_strings", VerifC02_strings)
 	vfRegister("VerifC02_longindex", VerifC02_longindex)
+	vfRegister("VerifC02_longupdate", VerifC02_longupdate)
 }
 
 // ---------------------------------------------------------------------------------------------------------------
@@ -561,5 +568,58 @@ func VerifC02_longindex() {
 	}
 	vfObserve("nfields", uint64(len(r.got)))
 	vfObserve("tablesize", uint64(r.d.dynTab.size))
+	vfReach("end")
+}
+
+func VerifC02_longupdate() {
+	// Block: 001xxxxx size update. cont = 0: any 5-bit prefix below 31 (one-byte form); cont = 1..10: prefix all ones
+	// followed by exactly that many symbolic continuation bytes (all but the last with the continuation bit; the last
+	// may end the integer or not: truncated / overflowing integers included). Sizes: 0..2^63+30, i.e. every width
+	// above uint32 too. Then optionally a second, one-byte size update (RFC 7541 §4.2 allows several at the start of a
+	// block), then optionally one indexed field (index restricted by c02allowed: 0, 1, 61, the two preloaded dynamic
+	// entries 62/63, 127 = truncated) which observes what the update evicted. 2 preloaded entries (sizes 34 + 35),
+	// symbolic initial table size and allowed size.
+	nc := vfLen("cont", 0, 10)
+	var data []byte
+	if nc == 0 {
+		b := vfU8("prefix")
+		vfAssume(b < 31)
+		data = []byte{0x20 | b}
+	} else {
+		cont := vfBytes("cont", nc)
+		for k := 0; k < nc-1; k++ {
+			vfAssume(cont[k]&128 != 0)
+		}
+		data = append([]byte{0x3f}, cont...)
+	}
+	if vfChoice("second", 2) == 1 {
+		b := vfU8("prefix2")
+		vfAssume(b < 31)
+		data = append(data, 0x20|b)
+	}
+	if vfChoice("field", 2) == 1 {
+		b := vfU8("indexed")
+		vfAssume(vfAnd(b >= 0x80, c02allowed(b)))
+		data = append(data, b)
+	}
+	m0, a := vfU32("tablesize"), vfU32("allowed")
+	r := c02new(m0, 2)
+	r.config(a, 0)
+	r.limits()
+	before := r.d.dynTab.maxSize
+	ok := r.blockBoth(data)
+	// stated directly (independent of the reference): whatever was accepted, the table maximum is within the allowed
+	// maximum or was never changed
+	vfAssert(vfOr(r.d.dynTab.maxSize == before, r.d.dynTab.maxSize <= a), "table maximum changed only to a size within the allowed maximum")
+	if ok {
+		vfReach("update-accepted")
+		if len(r.d.dynTab.table.ents) < 2 {
+			vfReach("update-evicted")
+		}
+	}
+	vfObserve("ok", vfIteU64(ok, 1, 0))
+	vfObserve("nfields", uint64(len(r.got)))
+	vfObserve("tablesize", uint64(r.d.dynTab.size))
+	vfObserve("tablemax", uint64(r.d.dynTab.maxSize))
 	vfReach("end")
 }
